@@ -42,6 +42,16 @@ CHECKS["C05"] = ("proof",
     "Trusted: struct pack/unpack, io.BytesIO, sha256 as an uninterpreted function, hexlify/reversal laws. Not decided: counts above 2 "
     "in one proof, independent implementation replaced by the spec function, garbage input.",
     "symbolic execution of the real AST (structural byte segments) against a wire-format spec function, VCs by z3/cvc5", "3 C05")
+CHECKS["C17"] = ("proof",
+    "Deductive: _bdecode(_bencode(x)) == x for every int and byte string; every kind of protocol message (ping/store/findNode/findValue "
+    "requests, contact/value/bytes responses, error messages with arbitrary text) encodes and decodes to the same class and fields for "
+    "all field values; compact addresses round-trip for every IPv4/port/id and are rejected otherwise; datagram field validation; the "
+    "handler's decode guard catches every exception class of the decoder's contract, records one failure and dispatches nothing. "
+    "Bounded (labelled): 40 concrete messages against an independent bencode reader; totality of the real datagram_received on 68k "
+    "garbage datagrams with routing table / data store unchanged.",
+    "Trusted: %-formatting/int()/find as modelled; the exception contract of decode_datagram (observed on the bounded garbage, not "
+    "proved); composite lists have concrete length; dictionary keys concrete. Not decided: decoder totality for all inputs up to 64 KiB.",
+    "symbolic execution of the real AST (structural byte segments incl. decimal segments), VCs by z3/cvc5", "3 C17")
 NOT_YET = {}
 
 def main():
